@@ -305,6 +305,7 @@ func (fw *FileWriter) flushLocked() error {
 		return err
 	}
 	if _, err := fw.file.Write(fw.header.Serialize()); err != nil {
+		_, _ = fw.file.Seek(currentPos, io.SeekStart) // never leave the descriptor inside the header
 		return err
 	}
 	if _, err := fw.file.Seek(currentPos, io.SeekStart); err != nil {
@@ -338,6 +339,7 @@ func (fw *FileWriter) Sync() error {
 	}
 
 	if _, err := fw.file.Write(fw.header.Serialize()); err != nil {
+		_, _ = fw.file.Seek(0, io.SeekEnd) // never leave the descriptor inside the header
 		return err
 	}
 
